@@ -10,10 +10,11 @@
   property NAMES grouped by writer — it does not run `buildAll`.  `expectNames ws r` is the prediction for one entry `r`
   of `defaultReader.Properties`: the names it claims and the scalar type it decodes with.
 
-  Proved in `Lemmas/PlyClaim.lean`: for distinct property names, `claimGuard ws` implies that `buildAll` on the header of
-  `ws` builds exactly the predicted readers followed by scalar readers (`buildReader_expect`), and that the claim
-  certificate `claimCheck` of the composed round-trip theorems holds (`claimCheck_of_guard`).
-  Evaluated by the driver on every header the real writer emits (oracle `c04.holds.claim_ok`).
+  Proved in `Lemmas/PlyClaim.lean`: for distinct property names, `claimGuard ws` implies that every default reader is built
+  exactly as predicted (`buildReader_expect`), that the whole reader list of `buildAll` on the header of `ws` is
+  `claimSpec ws` (`claimSpec_exact`), and the claim-stage hypotheses `ClaimOK` / `ClaimOKA` of the composed round-trip
+  theorems (`claimOK_of_guard`, `claimOKA_of_guard`).  `claimAgrees` is evaluated by the driver on the header of every file
+  the real writer emits (oracle `c04.holds.claim_ok`); `claimGuard` on a corpus case (`c04.holds.claim_guard_inside`).
 -/
 import PolyVerif.Model.Ply
 
